@@ -262,6 +262,16 @@ class VecSlot(Slot):
             # against LLVM's bytes like any accepted case)
             self.slkey = "op%d.sl" % self.opidx
             d.append(Dim(self.slkey, self.letter, [Alt(L, "bad", "scalar-view", "as-" + L.lower()) for L in "BHSDQ" if L != self.letter], self.opidx))
+        if self.letter == "V" and self.arr is not None and self.idx is None:
+            # one operand written with another arrangement than its partners (sqxtn v1.8b, v2.2d; add v0.16b, v1.8b,
+            # v2.8b): unencodable unless LLVM assembles the text (then the case is judged against LLVM's bytes)
+            self.axkey = "op%d.ax" % self.opidx
+            # (1D / 1Q are written as a D / Q register without element type: the scalar-view dimension covers those. The
+            # picks come from a side stream so that the main stream - and with it every other variant name - is unchanged)
+            names = sorted(a for a in ARR if a not in ("1D", "1Q"))
+            side = type(rng)(rng.s ^ (0xA5A5A5A5A5 + self.opidx))
+            pick = names if tier == "thorough" else sorted(set(names[side.below(len(names))] for _ in range(3)))
+            d.append(Dim(self.axkey, None, [Alt(a, "bad", "arrangement-view", "as-" + a.lower()) for a in pick], self.opidx))
         if self.idxkey and self.idxkey not in form.shared:
             form.shared.add(self.idxkey)
             mx, _ = self.idx_limit(form)
@@ -297,6 +307,8 @@ class VecSlot(Slot):
                 out.text.append("%s.%s[%d]" % (n, suf, idx) if n else None)
         else:
             arr = form.arr_of(self.arr, v)
+            if v.get(getattr(self, "axkey", None)) is not None:
+                arr = v[self.axkey]
             rl, et, _, _ = ARR[arr]
             out.tokens.append("V:%s:%d:%s" % (rl, rid, et))
             n = T.vec_name(rid)
